@@ -89,7 +89,7 @@ def _local_const_at(fn_node, name, at):
     return None
 
 
-def const_route(proj, fn, expr, at=None):
+def const_route(proj, fn, expr, at=None, node=None):
     """The string a route expression denotes, or None when it is not a compile-time constant: a literal, a local bound
     exactly once to one, a module-level or class-level constant."""
     if expr is None:
@@ -101,7 +101,7 @@ def const_route(proj, fn, expr, at=None):
         return e.value if isinstance(e.value, str) else None
     if isinstance(e, ast.Name):
         if at is not None and any(isinstance(x, ast.Name) and x.id == e.id and isinstance(x.ctx, ast.Store) for x in ast.walk(fn.node)):
-            return _local_const_at(fn.node, e.id, at)  # a local bound more than once: the binding that reaches the call
+            return _local_const_at(node if node is not None else fn.node, e.id, at)  # a local bound more than once: the binding that reaches the call
         r = proj.resolve_name(fn.module, e.id)
         if r and r[0] == "assign" and isinstance(r[1][1], ast.Constant) and isinstance(r[1][1].value, str):
             return r[1][1].value
@@ -164,6 +164,105 @@ def fold_tail_guard(fn_node):
     return fn_node
 
 
+def literal_strings(proj, fn, expr):
+    """The string constants of a list / tuple literal, written in place or bound once at module / class level (a local
+    bound once to such a literal too), in order; None for anything else."""
+    e = expanded(expr, fn.node) if isinstance(expr, ast.Name) else expr
+    if isinstance(e, ast.Name):
+        r = proj.resolve_name(fn.module, e.id)
+        e = r[1][1] if (r and r[0] == "assign") else e
+    elif isinstance(e, ast.Attribute) and isinstance(e.value, ast.Name):
+        owner = None
+        if fn.cls is not None and e.value.id in ("self", "cls", fn.self_name or ""):
+            owner = fn.cls
+        else:
+            r = proj.resolve_name(fn.module, e.value.id)
+            owner = r[1] if (r and r[0] == "class") else None
+        m = owner.lookup(e.attr) if owner is not None else None
+        e = m[2] if (m and m[1] == "assign") else e
+    if isinstance(e, (ast.List, ast.Tuple)) and e.elts and all(isinstance(x, ast.Constant) and isinstance(x.value, str) for x in e.elts):
+        return [x.value for x in e.elts]
+    return None
+
+
+def route_values(proj, fn, expr, at=None):
+    """Every string a route expression can denote, or None when that cannot be bounded: one constant (see const_route), or
+    the elements of the literal sequence(s) a loop variable ranges over."""
+    v = const_route(proj, fn, expr, at=at)
+    if v is not None:
+        return [v]
+    if not isinstance(expr, ast.Name):
+        return None
+    out = []
+    for n in ast.walk(fn.node):
+        if isinstance(n, (ast.For, ast.comprehension)) and isinstance(n.target, ast.Name) and n.target.id == expr.id:
+            vals = literal_strings(proj, fn, n.iter)
+            if vals is None:
+                return None
+            out += [x for x in vals if x not in out]
+    # every binding of the name must be one of those loops
+    n_loops = sum(1 for n in ast.walk(fn.node) if isinstance(n, (ast.For, ast.comprehension)) and isinstance(n.target, ast.Name) and n.target.id == expr.id)
+    n_stores = sum(1 for n in ast.walk(fn.node) if isinstance(n, ast.Name) and n.id == expr.id and isinstance(n.ctx, (ast.Store, ast.Del)))
+    if not out or n_stores != n_loops:
+        return None
+    return out
+
+
+def unroll_constant_loops(proj, fn, fn_node, limit=8):
+    """`for r in ("a", "b"): BODY(r)` -> `BODY("a"); BODY("b"); r = "b"` when the sequence is a literal (or a constant
+    bound to one) of at most `limit` strings, the loop has no else / break / continue, does not re-bind its variable and
+    hands it to a call: the loop runs exactly once per element, so the straight-line form has the same paths.  The
+    original node is not modified (a copy is returned when something was unrolled)."""
+    def candidate(node):
+        if node.orelse or not isinstance(node.target, ast.Name):
+            return None
+        vals = literal_strings(proj, fn, node.iter)
+        if vals is None or len(vals) > limit:
+            return None
+        name = node.target.id
+        for st in node.body:
+            for x in ast.walk(st):
+                if isinstance(x, (ast.Break, ast.Continue, ast.Yield, ast.YieldFrom, ast.FunctionDef, ast.Lambda)):
+                    return None
+                if isinstance(x, ast.Name) and x.id == name and isinstance(x.ctx, (ast.Store, ast.Del)):
+                    return None
+        handed = any(isinstance(c, ast.Call) and any(isinstance(a, ast.Name) and a.id == name for a in list(c.args) + [k.value for k in c.keywords])
+                     for st in node.body for c in ast.walk(st))
+        return vals if handed else None
+
+    if not any(isinstance(n, ast.For) and candidate(n) is not None for n in ast.walk(fn_node)):
+        return fn_node
+
+    class U(ast.NodeTransformer):
+        def visit_For(self, node):
+            self.generic_visit(node)
+            vals = candidate(node)
+            if vals is None:
+                return node
+            name = node.target.id
+            out = []
+            for v in vals:
+                class S(ast.NodeTransformer):
+                    def visit_Name(self, x, v=v):
+                        if x.id == name and isinstance(x.ctx, ast.Load):
+                            return ast.copy_location(ast.Constant(value=v), x)
+                        return x
+                out += [S().visit(copy.deepcopy(st)) for st in node.body]
+            out.append(ast.copy_location(ast.Assign(targets=[ast.Name(id=name, ctx=ast.Store())], value=ast.Constant(value=vals[-1]), lineno=node.lineno), node))
+            return out
+
+        def visit_FunctionDef(self, node):
+            if node is not new:
+                return node  # nested definitions are not part of this function's paths
+            self.generic_visit(node)
+            return node
+
+    new = copy.deepcopy(fn_node)
+    new = U().visit(new)
+    ast.fix_missing_locations(new)
+    return new
+
+
 class _FlowAliases(dict):
     """The flow-insensitive alias map (fallback) plus one map per CFG node's AST (state on entry of the node)."""
 
@@ -177,9 +276,17 @@ class _FlowAliases(dict):
 
 class RobustPersistEngine(PersistEngine):
     # ------------------------------------------------------------------------------------------------ CFG
+    def norm_node(self, fn):
+        """The function as the engine reads it: loops over a literal sequence of routes unrolled, a trailing
+        availability guard clause folded into the nested form."""
+        key = ("norm-node", fn)
+        if key not in self._memo:
+            self._memo[key] = fold_tail_guard(unroll_constant_loops(self.p, fn, fn.node))
+        return self._memo[key]
+
     def cfg(self, fn):
         if fn not in self._cfg:
-            self._cfg[fn] = CFG(fold_tail_guard(fn.node))
+            self._cfg[fn] = CFG(self.norm_node(fn))
         return self._cfg[fn]
 
     # --------------------------------------------------------------------------------------------- aliases
@@ -264,7 +371,7 @@ class RobustPersistEngine(PersistEngine):
             if ent is not None:
                 ent_x = ent if (isinstance(ent, ast.Name) and ent.id == sn) else expanded(ent, fn.node)
                 recv = "self" if (isinstance(ent_x, ast.Name) and ent_x.id == sn) else unparse(ent)
-                route = const_route(self.p, fn, route_expr, at=n)
+                route = const_route(self.p, fn, route_expr, at=n, node=self.norm_node(fn))
                 call = n
                 if not n.args:  # keyword spelling: the engine's bookkeeping reads args[0]
                     call = ast.copy_location(ast.Call(func=n.func, args=[ent] + ([route_expr] if route_expr is not None else []), keywords=[]), n)
@@ -316,6 +423,8 @@ class RobustPersistEngine(PersistEngine):
                 for x in list(c.args) + [k.value for k in c.keywords]:
                     if isinstance(x, ast.Name) and x.id in params:
                         used.add(x.id)
+            elif isinstance(c, ast.For) and isinstance(c.iter, ast.Name) and c.iter.id in params:
+                used.add(c.iter.id)  # the routes handed over as a sequence
         rebound = {x.id for x in ast.walk(target.node) if isinstance(x, ast.Name) and isinstance(x.ctx, (ast.Store, ast.Del))}
         used -= rebound
         if not used:
@@ -339,6 +448,11 @@ class RobustPersistEngine(PersistEngine):
         for prm in sorted(used):
             e = binding.get(prm, defaults.get(prm))
             v = const_route(self.p, fn, e) if prm in binding else (e.value if isinstance(e, ast.Constant) and isinstance(e.value, str) else None)
+            if v is None and e is not None:
+                seq = literal_strings(self.p, fn, e) if prm in binding else (
+                    [x.value for x in e.elts] if isinstance(e, (ast.List, ast.Tuple)) and e.elts and all(
+                        isinstance(x, ast.Constant) and isinstance(x.value, str) for x in e.elts) else None)
+                v = tuple(seq) if seq else None
             if v is not None:
                 consts[prm] = v
         if not consts:
@@ -350,7 +464,10 @@ class RobustPersistEngine(PersistEngine):
             class S(ast.NodeTransformer):
                 def visit_Name(self, x):
                     if isinstance(x.ctx, ast.Load) and x.id in consts:
-                        return ast.copy_location(ast.Constant(value=consts[x.id]), x)
+                        v = consts[x.id]
+                        if isinstance(v, tuple):
+                            return ast.copy_location(ast.Tuple(elts=[ast.Constant(value=y) for y in v], ctx=ast.Load()), x)
+                        return ast.copy_location(ast.Constant(value=v), x)
                     return x
 
             node.body = [S().visit(st) for st in node.body]
